@@ -181,6 +181,16 @@ def cases(tier, rnd):
                     "iters": rnd.randint(4, 8 if tier == "quick" else 25), "thin": rnd.choice([1, 1, 2, 3]), "burnin": rnd.choice([0, 1]),
                     "particles": rnd.randint(2, 4), "proposal": rnd.choice(["bootstrap", "semi-adapted", "fully-adapted"]),
                     "subtree": rnd.choice([0.0, 0.3]), "seed": rnd.randrange(1 << 30)})
+    # chains made of subtree moves on 5-7 data points: grafting a rebuilt subtree renames clashing clones past the
+    # existing names, so inside a sweep the clone names have gaps (they are only 0..K-1 right after relabel_nodes):
+    # K and n must be read off the tree, not off the names
+    for i in range(10 if tier == "quick" else 120):
+        n = rnd.randint(5, 7)
+        op = Fraction(0) if i % 3 == 0 else Fraction(1, 10)
+        ds = gen_dataset(rnd, n, S=1, G=rnd.randint(3, 4), bits=3, outlier_prob=op)
+        out.append({"kind": "chain", "data": ds.to_json(), "update": True, "alpha0": rnd.choice([1.0, 0.3, 2.5]),
+                    "iters": rnd.randint(10, 14), "thin": 1, "burnin": 1, "particles": rnd.randint(2, 4),
+                    "proposal": rnd.choice(["bootstrap", "semi-adapted", "fully-adapted"]), "subtree": 1.0, "seed": rnd.randrange(1 << 30)})
     return out
 
 
